@@ -5,14 +5,30 @@
 import Echse.Lemmas.Ical14
 namespace Echse.Ical
 
-theorem round_marked (p : Parser) (h : Marked p ∧ ¬ Fold (bpOf p)) (hs : p.stash.length ≠ 0) :
-    round p = procRes (doProc (unmark p)) := by
-  unfold round; rw [if_pos h, if_pos hs]
+theorem round_marked' (p : Parser) (h : Marked p ∧ ¬ Fold (bpOf p)) : round p = procStep (unmark p) := by
+  unfold round; rw [if_pos h]
+
+theorem round_marked (p : Parser) (h : Marked p ∧ ¬ Fold (bpOf p)) (hk : p.skip = false)
+    (hs : p.stash.length ≠ 0) : round p = procRes (doProc (unmark p)) := by
+  rw [round_marked' p h]; unfold procStep
+  have hk' : ¬ (unmark p).skip = true := by show ¬ p.skip = true; rw [hk]; simp
+  have hs' : (unmark p).stash.length ≠ 0 := hs
+  rw [if_neg hk', if_pos hs']
 
 /-- the marked line turns out complete, but it is empty: no line -/
-theorem round_marked_empty (p : Parser) (h : Marked p ∧ ¬ Fold (bpOf p)) (hs : ¬ p.stash.length ≠ 0) :
-    round p = (unmark p, none) := by
-  unfold round; rw [if_pos h, if_neg hs]
+theorem round_marked_empty (p : Parser) (h : Marked p ∧ ¬ Fold (bpOf p)) (hk : p.skip = false)
+    (hs : ¬ p.stash.length ≠ 0) : round p = (unmark p, none) := by
+  rw [round_marked' p h]; unfold procStep
+  have hk' : ¬ (unmark p).skip = true := by show ¬ p.skip = true; rw [hk]; simp
+  have hs' : ¬ (unmark p).stash.length ≠ 0 := hs
+  rw [if_neg hk', if_neg hs']
+
+/-- the marked line turns out complete, but it did not fit: passed over -/
+theorem round_marked_skip (p : Parser) (h : Marked p ∧ ¬ Fold (bpOf p)) (hk : p.skip = true) :
+    round p = ({ unmark p with skip := false, stash := [] }, none) := by
+  rw [round_marked' p h]; unfold procStep
+  have hk' : (unmark p).skip = true := hk
+  rw [if_pos hk']
 
 theorem round_chop (p : Parser) (h : ¬ (Marked p ∧ ¬ Fold (bpOf p))) : round p = chopR (preChop p) := by
   unfold round; rw [if_neg h]
@@ -39,34 +55,13 @@ theorem round_spec (p : Parser) (A : Abs) (h : Pre p A) (hne : rest p ≠ []) :
         | false => rfl
         | true => exact absurd ((fold_iff c).2 hx) (by rw [← hbp]; exact hc.2)
       have hpend : A.sc.pend = true := h.rel.mark.1 hc.1
-      have hgood : Good {} (c :: r) := good_restart A.sc c r hpend hf (by rw [← hr]; exact h.good)
-      by_cases hs : p.stash.length ≠ 0
-      · have hcur : A.cur ≠ [] := by
-          rw [← h.rel.stash]; intro hx; rw [hx] at hs; exact hs rfl
-        have hb := bookProc_spec (unmark p) A h.rel.stash h.rel.comp h.rel.log hcur rfl
-        have hrest : rest (bookProc (unmark p) A.ins).1 = c :: r := by
-          unfold rest; rw [hb.2.2.1, hb.2.2.2]; exact hr
-        refine ⟨(bookProc (unmark p) A.ins).1, (bookProc (unmark p) A.ins).2,
-          flushA A, ?_, ⟨hb.1, flushA_inv A, ?_, ?_⟩, ?_, hb.2.1, ?_⟩
-        · rw [flatNext_proc p _ A.ins (round_marked p hc hs)]
-        · rw [hrest, flushA_sc]; exact hgood
-        · rw [hrest, ← hr]; exact h.nobsl
-        · rw [hrest]; simp
-        · rw [hrest]; exact runA_flush A c r hpend hf
-      · -- an empty line: the mark comes off, nothing is processed
-        have hcur : A.cur = [] := by
-          rw [← h.rel.stash]; exact List.eq_nil_of_length_eq_zero (by omega)
-        have hfl := flushA_of_nil A hcur
-        have hrest : rest (unmark p) = c :: r := hr
-        refine ⟨unmark p, A.ins, flushA A, ?_, ⟨?_, flushA_inv A, ?_, ?_⟩, ?_, ?_, ?_⟩
-        · rw [flatNext_eq, round_marked_empty p hc hs]; rfl
-        · rw [hfl]
-          exact ⟨h.rel.stash, h.rel.comp, h.rel.log, Iff.rfl⟩
-        · rw [hrest, flushA_sc]; exact hgood
-        · rw [hrest, ← hr]; exact h.nobsl
-        · rw [hrest]; simp
-        · rw [hfl]
-        · rw [hrest]; exact runA_flush A c r hpend hf
+      obtain ⟨q', hbook, hrel, hbuf, hbix⟩ := procStep_spec (unmark p) A h.rel.fits
+        (fun ho => (h.rel.over ho).1) h.rel.comp h.rel.log rfl
+      have hrest : rest q' = c :: r := by
+        unfold rest; rw [hbuf, hbix]; exact hr
+      refine ⟨q', _, flushA A, by rw [flatNext_eq, round_marked' p hc]; exact hbook,
+        ⟨hrel, flushA_inv A, by rw [hrest, ← hr]; exact h.nobsl⟩, by rw [hrest]; simp, rfl, ?_⟩
+      rw [hrest]; exact runA_flush A c r hpend hf
   · obtain ⟨A1, h1, hp1, hins1, hrun1⟩ := pre_chop p A h hne hc
     rw [flatNext_eq, round_chop p hc, hrun1, ← hins1]
     cases he : eolR (rest (preChop p)) with
